@@ -531,8 +531,13 @@ def describe(c):
     for n in sorted(set(c['published']) | set(c['fresh'])):
         p, f = c['published'].get(n, []), c['fresh'].get(n, [])
         if p != f:
-            diff.append('%s: published-only %s, fresh-only %s' % (
-                n, sorted({s.split('|')[0] for s in p if s not in f}), sorted({s.split('|')[0] for s in f if s not in p})))
+            po = sorted({s.split('|')[0] for s in p if s not in f})
+            fo = sorted({s.split('|')[0] for s in f if s not in p})
+            if po or fo:
+                diff.append('%s: published-only %s, fresh-only %s' % (n, po, fo))
+            else:   # same diagnostics, different multiplicities
+                dup = sorted({s.split('|')[0] for s in set(p) | set(f) if p.count(s) != f.count(s)})
+                diff.append('%s: duplicated diagnostics of %s (published %d, fresh %d)' % (n, dup, len(p), len(f)))
     return '%s {%s} %s => %s' % (c['mode'], init, ' '.join(ev(e) for e in c['events']), '; '.join(diff))
 
 
